@@ -223,9 +223,10 @@ func TestVerif_C18_Mutex(t *testing.T) {
 	}
 	members := map[string]*cluster{"primary": rig.primary, "secondary": rig.secondary}
 	memberNames := []string{"primary", "secondary"}
-	cfgCycle := []string{c18CfgShared, c18CfgPerMember, c18CfgDup, c18CfgWaitTO, c18CfgPerMember, c18CfgRPCTO, c18CfgShared, c18CfgDup}
+	// 7 entries: coprime with the shard counts, so every shard sees every configuration
+	cfgCycle := []string{c18CfgShared, c18CfgPerMember, c18CfgDup, c18CfgWaitTO, c18CfgPerMember, c18CfgRPCTO, c18CfgDup}
 
-	n := r.N(64, 1600)
+	n := r.N(63, 1575)
 	for i := 0; i < n; i++ {
 		if !r.Mine(i) {
 			continue
@@ -513,7 +514,7 @@ func c18TimeoutWhileWaiting(r *kit.Run, i int, rig *c18Rig, cli *clientv3.Client
 		}()
 	}
 	detail := map[string]interface{}{"config": cfg, "lock": name, "holder_member": hm, "waiter_member": wm, "timeout_ms": T.Milliseconds()}
-	wd := time.After(3 * time.Minute)
+	wd := time.After(2 * time.Minute)
 	for k := 0; k < nWaiters; k++ {
 		select {
 		case x := <-resc:
@@ -528,7 +529,7 @@ func c18TimeoutWhileWaiting(r *kit.Run, i int, rig *c18Rig, cli *clientv3.Client
 				}
 			}
 		case <-wd:
-			r.Inconclusive(fmt.Sprintf("round %d (%s): a Lock call with a %v timeout did not return within 3 min; aborting this shard", i, cfg, T))
+			r.Inconclusive(fmt.Sprintf("round %d (%s): a Lock call with a %v timeout did not return within 2 min", i, cfg, T))
 			h.Unlock()
 			return
 		}
